@@ -24,7 +24,7 @@ func TestMain(m *testing.M) {
 func TestReplay(t *testing.T) { props.ReplayMain(t, *replayFile) }
 
 var faultKindsSSH = []string{"error", "garbage", "warnerror", "badecho", "close", "stall"}
-var faultKindsHTTP = []string{"http500", "http403", "malformed", "status-error", "close", "stall"}
+var faultKindsHTTP = []string{"http500", "http503", "http403", "malformed", "status-error", "close", "stall"}
 
 func drawFault(rt *rapid.T, fam string, maxPos int, allowStall bool) FaultSpec {
 	kinds := faultKindsSSH
@@ -59,8 +59,19 @@ func TestC11(t *testing.T) {
 		case 1:
 			sc.Hostname = "otherbox"
 		}
-		if rapid.IntRange(0, 2).Draw(rt, "withFault") == 0 {
-			sc.Faults = []FaultSpec{drawFault(rt, fam, 25, rapid.IntRange(0, 9).Draw(rt, "stallOK") == 0)}
+		if rapid.IntRange(0, 2).Draw(rt, "withFault") != 2 {
+			// mostly during session set-up and configuration retrieval
+			max := 25
+			if rapid.IntRange(0, 2).Draw(rt, "earlyFault") != 0 {
+				max = 11
+			}
+			f := drawFault(rt, fam, max, rapid.IntRange(0, 9).Draw(rt, "stallOK") == 0)
+			// harmless chatter of the device (an INFO or WARNING line) must
+			// not make a compare run change anything either
+			if (fam == "asa" || fam == "ios" || fam == "linux") && rapid.IntRange(0, 3).Draw(rt, "chatter") == 0 {
+				f.Kind = rapid.SampledFrom([]string{"info", "warning"}).Draw(rt, "chatterKind")
+			}
+			sc.Faults = []FaultSpec{f}
 		}
 		c := sc.Case("C11")
 		props.Judge(rt, ev, oracleC11, c, func() any { return sc })
@@ -185,7 +196,7 @@ func TestC17(t *testing.T) {
 	})
 }
 
-const ruleC15 = "generated IOS change scripts (real drc approve against sshdev) x a banner plan of 1-3 banners: command index x form in {inside the echo at character offset j, before the echo followed by a fresh prompt, after the echo, after the echo with an extra prompt} x kind in {0:02:00, 0:01:00} x optionally split into two write() calls x in one of three cases one change command (drawn position, or the second half of a two-command packet with the first banner on the first half) is rejected by the device; oracle: reload guard ordering from the transcript and metamorphic equality (exit status, accepted commands, final running and startup configuration) with the same run without banners; " +
+const ruleC15 = "generated IOS change scripts (real drc approve against sshdev) x a banner plan of 1-3 banners: command index x form in {inside the echo at character offset j, before the echo followed by a fresh prompt, after the echo, after the echo with an extra prompt} x kind in {0:02:00, 0:01:00} x optionally split into two write() calls x in one of four cases a further banner at one of the two commands that frame the guarded block (the 'configure terminal' behind 'reload in', the 'end' in front of 'reload cancel') x in one of three cases one change command (drawn position, or the second half of a two-command packet with the first banner on the first half) is rejected by the device; oracle: reload guard ordering from the transcript and metamorphic equality (exit status, accepted commands, final running and startup configuration) with the same run without banners; " +
 	"non-trivial = at least one banner lands on a change command; distinct = hash of scenario + banner plan"
 
 func TestC15(t *testing.T) {
@@ -209,6 +220,17 @@ func TestC15(t *testing.T) {
 			}
 			used[b.Chg] = true
 			sc.Banners = append(sc.Banners, b)
+		}
+		// a banner at one of the two commands that frame the guarded block
+		if rapid.IntRange(0, 3).Draw(rt, "framing") == 0 {
+			at := rapid.SampledFrom([]string{"conf", "end", "end"}).Draw(rt, "at")
+			kind := "0:02:00"
+			if at == "end" && rapid.Bool().Draw(rt, "atKind") {
+				kind = "0:01:00"
+			}
+			sc.Banners = append(sc.Banners, BannerSpec{At: at, Kind: kind,
+				Form:   rapid.SampledFrom([]string{"inside", "before", "after"}).Draw(rt, "atForm"),
+				Offset: rapid.IntRange(1, 12).Draw(rt, "atOffset")})
 		}
 		rel := ""
 		if rapid.IntRange(0, 2).Draw(rt, "withReject") == 0 {
@@ -284,6 +306,7 @@ func drawInvocation(rt *rapid.T, label string) Invocation {
 		Verb: rapid.SampledFrom([]string{"approve", "compare"}).Draw(rt, label+"verb")}
 	if inv.Front == "drc" {
 		inv.Spell = rapid.SampledFrom([]string{"abs", "rel", "ipv6"}).Draw(rt, label+"spell")
+		inv.LogFile = label == "contender" && rapid.IntRange(0, 3).Draw(rt, label+"logfile") == 0
 	}
 	return inv
 }
